@@ -12,7 +12,10 @@
 (*   Acquired{task}       hook: permit acquired in begin()                 *)
 (*   Begin{task}          hook: transaction put into the slot              *)
 (*   BeginRet{w, t}       harness: begin() returned to writer w            *)
-(*   Write{w, t, j, k, seen}  harness: a write inside the transaction      *)
+(*   WriteCall{w, t, j, k}    harness: about to call tx(..)                *)
+(*   TxLocked{task} TxUnlocked{task}   hook: the call holds / is about to  *)
+(*                        release the slot lock                            *)
+(*   Write{w, t, j, k, seen}  harness: the write returned to the writer    *)
 (*   Commit{task} Release{task}      hook sqlite.commit.ok (one hook event, *)
 (*   Rollback{task} Release{task}    two protocol steps without an await    *)
 (*                        point in between: the harness writes two lines)  *)
@@ -34,8 +37,11 @@ EXTENDS SqliteTx, TLC, Json, IOUtils
 Rec == ndJsonDeserialize(IOEnv.TRACE)
 
 VARIABLES i,        \* next event
-          taskOf    \* tokio task id -> writer (from Spawn events)
-tvars == <<sem, queue, slot, dirty, db, order, expected, mine, pc, txn, rbSpawned, rbTaken, aborted, broken, i, taskOf>>
+          taskOf,   \* tokio task id -> writer (from Spawn events)
+          callK     \* writer -> key announced by its last WriteCall event
+tvars == <<sem, queue, slot, slotLock, reads, pending, dirty, db, order, expected, mine, pc, txn,
+           rbSpawned, rbWaiting, rbTaken, aborted, broken, i, taskOf, callK>>
+aux == <<taskOf, callK>>
 
 Ev == Rec[i]
 W == taskOf[Ev.task]
@@ -44,6 +50,9 @@ Known == Ev.task \in DOMAIN taskOf
 StepReset ==
     /\ Ev.ev = "Reset"
     /\ sem' = 1 /\ queue' = <<>> /\ slot' = "none" /\ dirty' = <<>>
+    /\ slotLock' = "free" /\ pending' = [w \in Writers |-> "none"] /\ rbWaiting' = {}
+    /\ reads' = [w \in Writers |-> 0]
+    /\ callK' = [w \in Writers |-> "none"]
     /\ db' = <<>> /\ order' = <<>> /\ expected' = <<>>
     /\ mine' = [w \in Writers |-> <<>>]
     /\ pc' = [w \in Writers |-> "idle"]
@@ -56,51 +65,76 @@ StepSpawn ==
     /\ Ev.ev = "Spawn"
     /\ Ev.w \in Writers
     /\ taskOf' = [x \in DOMAIN taskOf \cup {Ev.task} |-> IF x = Ev.task THEN Ev.w ELSE taskOf[x]]
-    /\ UNCHANGED vars
+    /\ UNCHANGED vars /\ UNCHANGED callK
 
 StepAcquired ==
     /\ Ev.ev = "Acquired" /\ Known
     /\ WantBegin(W)
     /\ pc'[W] = "acquired"            \* the implementation HAS the permit: it must have been free
-    /\ UNCHANGED taskOf
+    /\ UNCHANGED aux
 
 StepBegin ==
     /\ Ev.ev = "Begin" /\ Known
     /\ SetSlot(W)
-    /\ UNCHANGED taskOf
+    /\ UNCHANGED aux
 
 StepBeginRet ==
     /\ Ev.ev = "BeginRet"
     /\ pc[Ev.w] = "in_tx" /\ slot = Ev.w /\ txn[Ev.w] = Ev.t
+    /\ UNCHANGED vars /\ UNCHANGED aux
+
+\* harness: writer w (or a helper task working in w's transaction) is about to call tx(..) for
+\* its j-th write on key k ("none": a statement without effect)
+StepWriteCall ==
+    /\ Ev.ev = "WriteCall"
+    /\ Ev.t = txn[Ev.w] /\ (Ev.k # "none" => Ev.j = Len(mine[Ev.w]))
+    /\ callK' = [callK EXCEPT ![Ev.w] = Ev.k]
     /\ UNCHANGED vars /\ UNCHANGED taskOf
 
+\* hook: the tx(..) call holds the slot lock
+StepTxLocked ==
+    /\ Ev.ev = "TxLocked" /\ Known
+    /\ LockSlot(W, callK[W])
+    /\ UNCHANGED aux
+
+\* hook: the tx(..) call is over (returned, or its future is being dropped); emitted right before
+\* the slot lock is released
+StepTxUnlocked ==
+    /\ Ev.ev = "TxUnlocked" /\ Known
+    /\ \/ UnlockSlot(W)
+       \/ \E f \in BOOLEAN : OrphanEnds(W, f)
+    /\ UNCHANGED aux
+
+\* harness: the write returned to a writer that still holds its permit
 StepWrite ==
     /\ Ev.ev = "Write"
-    /\ Ev.t = txn[Ev.w] /\ Ev.j = Len(mine[Ev.w])
-    /\ TxWrite(Ev.w, Ev.k)
-    /\ Ev.seen = Len(db) + Len(dirty')      \* rows visible inside the transaction
-    /\ UNCHANGED taskOf
+    /\ pc[Ev.w] = "in_tx" /\ Ev.t = txn[Ev.w]
+    /\ Len(mine[Ev.w]) = Ev.j + 1 /\ mine[Ev.w][Ev.j + 1].k = Ev.k
+    /\ Ev.seen = Len(db) + Len(dirty)      \* rows visible inside the transaction
+    /\ UNCHANGED vars /\ UNCHANGED aux
 
 StepCommit ==
     /\ Ev.ev = "Commit" /\ Known
     /\ TakeCommit(W)
-    /\ UNCHANGED taskOf
+    /\ UNCHANGED aux
 
 StepRollback ==
     /\ Ev.ev = "Rollback" /\ Known
     /\ TakeRollback(W)
-    /\ UNCHANGED taskOf
+    /\ UNCHANGED aux
 
 StepRelease ==
     /\ Ev.ev = "Release" /\ Known
     /\ ReleasePermit(W)
-    /\ UNCHANGED taskOf
+    /\ UNCHANGED aux
 
+\* the permit is (about to be) dropped uncommitted - possibly while a tx(..) call of the
+\* transaction is in flight and holds the slot lock
 StepPermitDrop ==
     /\ Ev.ev = "PermitDrop"
     /\ Ev.t = txn[Ev.w]
-    /\ DropPermit(Ev.w)
-    /\ UNCHANGED taskOf
+    /\ DropPermit(Ev.w) \/ DropPermitInFlight(Ev.w)
+    /\ UNCHANGED aux
 
 \* the cancelled task was inside begin(): waiting for the permit (invisible here), or it had
 \* acquired the permit and not yet set the slot; once begin() returned the guard is disarmed
@@ -113,8 +147,9 @@ StepTaskGone ==
             \* this attempt of w is over, nothing else changed
             /\ txn' = [txn EXCEPT ![Ev.w] = @ + 1]
             /\ aborted' = aborted \cup {TxId(Ev.w)}
-            /\ UNCHANGED <<sem, queue, slot, dirty, db, order, expected, mine, pc, rbSpawned, rbTaken, broken>>
-    /\ UNCHANGED taskOf
+            /\ UNCHANGED <<sem, queue, slot, slotLock, reads, pending, dirty, db, order, expected, mine, pc,
+                           rbSpawned, rbWaiting, rbTaken, broken>>
+    /\ UNCHANGED aux
 
 \* the task of w is being cancelled while commit(permit) / rollback(permit) is in flight (emitted
 \* before the call's future is dropped): whether a cut COMMIT went through shows only in later
@@ -123,26 +158,29 @@ StepCommitCut ==
     /\ Ev.ev = "CommitCut"
     /\ Ev.t = txn[Ev.w]
     /\ \E c \in BOOLEAN : CutCommit(Ev.w, c)
-    /\ UNCHANGED taskOf
+    /\ UNCHANGED aux
 
 StepRollbackCut ==
     /\ Ev.ev = "RollbackCut"
     /\ Ev.t = txn[Ev.w]
     /\ CutCommit(Ev.w, FALSE)
-    /\ UNCHANGED taskOf
+    /\ UNCHANGED aux
 
+\* hook: the spawned task owned the slot lock and took + rolled back what was in the slot. It
+\* cannot have done so while a tx(..) call holds the lock.
 StepAutoRollback ==
     /\ Ev.ev = "AutoRollback"
     /\ \E r \in rbSpawned :
-          /\ RbTake(r)
+          /\ RbStart(r)
+          /\ r \in rbTaken'
           \* the hook says whether there was a transaction in the slot
           /\ (Ev.hook = "sqlite.auto_rollback.some") = (slot # "none")
-    /\ UNCHANGED taskOf
+    /\ UNCHANGED aux
 
 StepAutoRelease ==
     /\ Ev.ev = "AutoRelease"
     /\ \E r \in rbTaken : RbRelease(r)
-    /\ UNCHANGED taskOf
+    /\ UNCHANGED aux
 
 \* JSON side of the final SELECT
 SameLog(rows) ==
@@ -157,16 +195,18 @@ SameKV(kv) ==
 StepFinal ==
     /\ Ev.ev = "Final"
     /\ SameLog(Ev.log) /\ SameKV(Ev.kv)
-    /\ sem = 1 /\ slot = "none" /\ rbSpawned = {} /\ rbTaken = {}      \* nothing left behind
+    /\ sem = 1 /\ slot = "none" /\ slotLock = "free"                  \* nothing left behind
+    /\ rbSpawned = {} /\ rbWaiting = {} /\ rbTaken = {}
     /\ \A w \in Writers : ~Holding(w)
-    /\ UNCHANGED vars /\ UNCHANGED taskOf
+    /\ UNCHANGED vars /\ UNCHANGED aux
 
-TraceInit == Init /\ i = 1 /\ taskOf = [x \in {} |-> ""]
+TraceInit == Init /\ i = 1 /\ taskOf = [x \in {} |-> ""] /\ callK = [w \in Writers |-> "none"]
 
 TraceNext ==
     /\ i <= Len(Rec)
     /\ i' = i + 1
-    /\ \/ StepReset \/ StepSpawn \/ StepAcquired \/ StepBegin \/ StepBeginRet \/ StepWrite
+    /\ \/ StepReset \/ StepSpawn \/ StepAcquired \/ StepBegin \/ StepBeginRet
+       \/ StepWriteCall \/ StepTxLocked \/ StepTxUnlocked \/ StepWrite
        \/ StepCommit \/ StepRollback \/ StepRelease \/ StepPermitDrop \/ StepTaskGone
        \/ StepCommitCut \/ StepRollbackCut
        \/ StepAutoRollback \/ StepAutoRelease \/ StepFinal
